@@ -496,6 +496,21 @@ def flow_rules(c, res, an):
             dflt = next(iter(rv_[2]))
     if dflt is None:
         raise CheckError('anchor: RegionHandler::get_default_datarate is not one default method returning a constant (overrides: %s)' % overrides)
+    # the fixed-plan stubs of handle_new_channel / channel_dl_update are `unreachable!()`: every call of the two region operations is
+    # behind `has_fixed_channel_plan() == false` (a NewChannelReq / DlChannelReq from the network on US915 / AU915 would panic otherwise)
+    n_stub = 0
+    for suffix in ('Configuration::handle_new_channel', 'Configuration::channel_dl_update'):
+        for bf_, bb_, t_ in c.pf.callers_of(suffix, crates={'lorawan_device'}):
+            if bf_.body.path.startswith(D + 'region::'):
+                continue                      # the dispatcher itself
+            n_stub += 1
+            conds_ = rules.path_conditions(bf_, bb_)
+            okg = any(isinstance(x[0], tuple) and x[0][:1] == ('call',) and x[0][1].endswith('has_fixed_channel_plan') and rules.cond_false(x) for x in conds_)
+            res.require(okg, 'C04:%s:%s:fixed-plan-guard' % (short(bf_.body.path), suffix.split('::')[-1]),
+                        '%s is called without the has_fixed_channel_plan() test: on a fixed-plan region (US915 / AU915) it ends in unreachable!() - a NewChannelReq / DlChannelReq from the network panics the device' % suffix.split('::')[-1],
+                        '%s bb%d' % (bf_.body.path, bb_), 'DOM(not has_fixed_channel_plan() => call)', instance='%s: %s only for dynamic plans' % (short(bf_.body.path), suffix.split('::')[-1]))
+    if n_stub < 2:
+        raise CheckError('floor: callers of handle_new_channel / channel_dl_update %d < 2' % n_stub)
     win = rules.variants_of(prog, 'mac::Window')
     # the classified unwrap of Mac::build_rf_config leans on the RX2 default being defined: the lookup it unwraps must be the one for Window::_2
     from . import c10 as _c10
